@@ -135,6 +135,21 @@ func init() {
 				bound = 4
 			}
 			tree := &explore.Tree{Bound: bound, Stop: ctx.Expired}
+			if mode == "parsedir" {
+				// ParseDir decorates the packages of a directory in map order, which this (uninstrumented)
+				// build does not control. As long as every run stops at its first failure the number of
+				// resolver calls does not depend on that order; if it does, the explorer cannot replay
+				// prefixes and this configuration is cut (the other nine still decide the property)
+				defer func() {
+					if r := recover(); r != nil {
+						if strings.Contains(fmt.Sprint(r), "replay divergence") {
+							ctx.Cut("parsedir: resolver call sequence not reproducible (package map order)")
+							return
+						}
+						panic(r)
+					}
+				}()
+			}
 			tree.Explore(func(c *explore.Chooser) {
 				cs := c17Case{Template: t, Mode: mode}
 				o := c17Exec(cs, c)
